@@ -37,6 +37,9 @@ RULE = ('cases: ~88% scalar domain (rosomaxa::example VectorContext, 1-3 initial
         'that are all-empty, all-full, alternating, empty only in the first / last generation; scripted diversify_many (0-2 '
         'solutions) with a scripted selection phase; a scripted population (Greedy / Elitism, selection size 1-3) that selects no / '
         'fewer parents in scripted generations; track_population 1-5; quota never / true from poll k on for k around every loop poll. '
+        'Corpus: regression cases of C07-F2 (max_time = 1 s, run started 80 ms after the configuration was built) and, operator level, of '
+        'C07-F3 (domain breakop: the last customer job of a tour with an optional break is taken out and re-inserted elsewhere by the real '
+        'RecreateWithCheapest; no model trace, the oracle looks for a tour that serves only a break). '
         'non-trivial = distinct cases with at least one generation in which the heuristic handed over nothing.')
 TRUSTED = ['c07_loop: harness/src/bin/c07_loop.rs - the scripted HyperHeuristic / HeuristicPopulation / Termination / InitialOperator '
            'wrappers (public traits) append every call to one event log; CountingQuota; poll sites from std::backtrace symbol names',
